@@ -40,8 +40,15 @@ Inductive tfield :=
 | FB64Tok (maxlen : Z)                     (* HIP / TKEY key: one token, get_string + b64decode, printed unbroken *)
 | FNamesRest                               (* HIP rendezvous servers: the remaining tokens as names *)
 | FNameNoRel                               (* TKEY algorithm: tok.get_name(relativize=False), no origin *)
-| FB64RestOpt.                             (* TKEY other data: concatenate_remaining_identifiers(True) + b64decode,
+| FB64RestOpt                              (* TKEY other data: concatenate_remaining_identifiers(True) + b64decode,
                                               printed unbroken and only when not empty *)
+| FGw (ipsec : bool)                       (* dns.rdtypes.util.Gateway: IPSECKEY "gateway_type algorithm gateway",
+                                              AMTRELAY "relay_type relay" (type <= 127); the form of the last token
+                                              depends on the type *)
+| FB64RestE.                               (* IPSECKEY key: concatenate_remaining_identifiers(True) + b64decode, styled
+                                              chunks, may be empty (the blank before it is still printed) *)
+
+Inductive gwval := GwNone | GwText (t : list Z) | GwName (n : name).
 
 Inductive tval :=
 | VInt (z : Z)
@@ -49,7 +56,8 @@ Inductive tval :=
 | VName (n : name)
 | VStrs (l : list (list Z))
 | VWindows (ws : list (Z * list Z))
-| VNames (l : list name).
+| VNames (l : list name)
+| VGw (g a : Z) (gw : gwval).
 
 Record style := mkStyle {
   s_origin : option name; s_relativize : bool;
@@ -717,12 +725,21 @@ Definition print_field (st : style) (f : tfield) (v : tval) : res (list Z) :=
   | FNamesRest, VNames l => do ts <- map_res (name_to_styled_text st) l; Ok (flat_map (fun t => 32 :: t) ts)
   | FNameNoRel, VName n => name_to_styled_text st n
   | FB64RestOpt, VBytes b => Ok (if is_nil b then [] else 32 :: b64encode b)
+  | FGw ipsec, VGw g a gw =>
+      do t <- match gw with
+              | GwNone => Ok [46]
+              | GwText t => Ok t
+              | GwName n => name_to_styled_text st n
+              end;
+      Ok (dec g ++ [32] ++ (if ipsec then dec a ++ [32] else []) ++ t)
+  | FB64RestE, VBytes b => Ok (styled_base64ify b (s_b64_chunk st) (s_b64_sep st))
   | _, _ => Internal eBadCase
   end.
 
 (* the texts of the bitmap and of the optional / list-valued last fields bring their own leading blank *)
 Definition field_sep (f : tfield) : list Z :=
   match f with FBitmap | FQOpt | FNamesRest | FB64RestOpt => [] | _ => [32] end.
+(* (FB64RestE keeps the blank: IPSECKEY prints "... gateway " even without key) *)
 
 Fixpoint print_fields (st : style) (fs : list tfield) (vs : list tval) : res (list Z) :=
   match fs, vs with
@@ -796,6 +813,19 @@ Definition parse_field (c : pctx) (f : tfield) (st : tstate) : res (tval * tstat
   | FB64RestOpt =>
       do hs <- concatenate_remaining_identifiers st true;
       do e <- utf8_encode (fst hs); do b <- b64decode e; Ok (VBytes b, snd hs)
+  | FB64RestE =>
+      do hs <- concatenate_remaining_identifiers st true;
+      do e <- utf8_encode (fst hs); do b <- b64decode e; Ok (VBytes b, snd hs)
+  | FGw ipsec =>
+      do gs <- get_uint max8 st 10;
+      do as_ <- (if ipsec then get_uint max8 (snd gs) 10
+                 else if fst gs >? 127 then Lib eSyntax else Ok (0, snd gs));
+      let g := fst gs in
+      if (g =? 0) || (g =? 1) || (g =? 2) then
+        do ts <- get_string (snd as_) 0; Ok (VGw g (fst as_) (GwText (fst ts)), snd ts)
+      else if g =? 3 then
+        do ns <- get_name c (snd as_); Ok (VGw g (fst as_) (GwName (fst ns)), snd ns)
+      else Lib eSyntax
   | FBitmap =>
       do ts <- get_remaining st 0;
       do types <- map_res bitmap_token_type (fst ts);
@@ -831,6 +861,19 @@ Definition ctor_field (f : tfield) (v : tval) : res tval :=
   | FHexStr, VBytes b => if zlen b >? 255 then Internal iValueError else Ok v
   | FB64Tok maxlen, VBytes b => if zlen b >? maxlen then Internal iValueError else Ok v
   | FB64RestOpt, VBytes b => if zlen b >? 65535 then Internal iValueError else Ok v
+  | FGw _, VGw g a gw =>      (* Gateway._check *)
+      if g =? 0 then
+        match gw with
+        | GwText t => if zlist_eqb t [46] then Ok (VGw g a GwNone) else Internal iValueError
+        | _ => Internal iValueError
+        end
+      else if g =? 1 then
+        match gw with GwText t => do _ <- ipv4_aton t; Ok v | _ => Internal iValueError end
+      else if g =? 2 then
+        match gw with GwText t => do _ <- ipv6_aton t; Ok v | _ => Internal iValueError end
+      else if g =? 3 then
+        match gw with GwName _ => Ok v | _ => Internal iValueError end
+      else Internal iValueError
   | FAlg, VBytes t => do z <- alg_from_text t; Ok (VInt z)
   | FTag, VBytes b =>
       if (zlen b >? 255) || is_nil b || negb (forallb is_alnum b) then Internal iValueError else Ok v
@@ -912,6 +955,8 @@ Definition schema_of (rdtype : Z) : option (list tfield) :=
   else if (rdtype =? 104) || (rdtype =? 106) then Some [u16; FFmtHex]               (* NID L64 *)
   else if rdtype =? CH_A then Some [FName; FOct16]                                 (* A in class CH *)
   else if rdtype =? 20 then Some [cstr; FQOpt]                                     (* ISDN *)
+  else if rdtype =? 45 then Some [u8; FGw true; FB64RestE]                         (* IPSECKEY *)
+  else if rdtype =? 260 then Some [u8; FDec 1; FGw false]                          (* AMTRELAY *)
   else if rdtype =? 55 then Some [u8; FHexStr; FB64Tok 65535; FNamesRest]          (* HIP (text order) *)
   else if rdtype =? 249 then Some [FNameNoRel; u32; u32; u16; u16; FB64Tok 65535; FB64RestOpt]  (* TKEY *)
   else if rdtype =? 108 then Some [FEui 6]                                         (* EUI48 *)
@@ -963,6 +1008,7 @@ Definition obs_of_val (v : tval) : obs :=
   | VStrs l => L (map B l)
   | VWindows ws => L (map (fun w => L [I (fst w); B (snd w)]) ws)
   | VNames l => L (map obs_of_name l)
+  | VGw g a gw => L [I g; I a; match gw with GwNone => I 0 | GwText t => obs_of_text t | GwName n => obs_of_name n end]
   end.
 
 Fixpoint windows_of_obs (l : list obs) : option (list bwindow) :=
@@ -1007,6 +1053,10 @@ Fixpoint vals_of_obs (fs : list tfield) (os : list obs) : option (list tval) :=
           | FHexStr, B b => Some (VBytes b :: r)
           | FB64Tok _, B b => Some (VBytes b :: r)
           | FB64RestOpt, B b => Some (VBytes b :: r)
+          | FB64RestE, B b => Some (VBytes b :: r)
+          | FGw _, L [I g; I a; I 0] => Some (VGw g a GwNone :: r)
+          | FGw _, L [I g; I a; B t] => Some (VGw g a (GwText t) :: r)
+          | FGw _, L [I g; I a; L l] => match name_of_obs l with Some n => Some (VGw g a (GwName n) :: r) | None => None end
           | FNameNoRel, L l => match name_of_obs l with Some n => Some (VName n :: r) | None => None end
           | FNamesRest, L l => match names_of_obs l with Some ns => Some (VNames ns :: r) | None => None end
           | FAlg, I z => Some (VInt z :: r)
